@@ -6,9 +6,9 @@ pub mod scen_build;
 #[cfg(feature = "hooks")]
 pub mod scen_hook;
 pub mod scen_text;
-#[cfg(feature = "render")]
+#[cfg(feature = "svg")]
 pub mod scen_render;
-#[cfg(feature = "render")]
+#[cfg(feature = "image")]
 pub mod scen_file;
 #[cfg(any(feature = "hooks", feature = "wasmonly"))]
 pub mod scen_wasm;
